@@ -14,6 +14,7 @@ import PdfVerif.Lemmas.FiltersA85
 import PdfVerif.Lemmas.FiltersLzw
 import PdfVerif.Lemmas.FiltersFuel
 import PdfVerif.Lemmas.FiltersGen
+import PdfVerif.Lemmas.FiltersScan
 
 namespace PdfVerif.Props.C03
 open PdfVerif PdfVerif.Filters PdfVerif.FilterEnc PdfVerif.Gen.Filters
@@ -513,6 +514,79 @@ theorem tiff_translated (colors columns bpc : Nat) (data : Bytes) (bpp : Nat) (r
 
 example : apply_tiff_predictor 2 2 8 [1, 2, 3, 4] = .ok [1, 2, 4, 6] := by decide
 example : tiffNbytes 3 (tiffBpp 2 8) = 6 ∧ tiffHasLeft 1 2 = false ∧ tiffHasLeft 2 2 = true := by decide
+
+/-! ## Round 6: the whole `stream` branch — Length clamp, `endstream` scan, fallback mode
+
+`streamRead` (tied to `PDFParser.do_keyword` on every run, fallback and non-fallback, any `Length`)
+returns `rawdata` and the position the parser is left at.  `ENDSTREAM_MARK` and `streamClamp` are
+regenerated from pdfparser.py. -/
+
+/-- The `while 1` loop after the Length bytes passes over exactly `d` - for EVERY `d` in which the
+first `endstream` of `d ++ endstream` is the final one (i.e. `d` does not contain the marker),
+whatever line ends `d` contains, provided the marker's line is complete. -/
+theorem stream_scan_delim (d q eol rest : Bytes) (k : Nat)
+    (hd : findSub ENDSTREAM_MARK (d ++ ENDSTREAM_MARK) = some d.length)
+    (hq : ∀ c ∈ q, c ≠ 10 ∧ c ≠ 13) (heol : EolOk eol rest) :
+    scanEndstream (d.length + 1 + k) (d ++ ENDSTREAM_MARK ++ q ++ eol ++ rest) = d :=
+  scan_delim _ d q eol rest (by omega) hd hq heol
+
+/-- Non-fallback mode, `Length` = payload length: `rawdata` is exactly the payload - whatever bytes it
+contains, `endstream` included - and the parser resumes exactly at the `endstream` keyword, whatever
+(marker-free) bytes `tail` stand between the payload and the keyword (EOL, blanks, nothing). -/
+theorem stream_read_exact (pre kw eol0 d tail q eol rest : Bytes)
+    (hkw : ∀ c ∈ kw, c ≠ 10 ∧ c ≠ 13)
+    (heol0 : EolOk eol0 (d ++ (tail ++ ENDSTREAM_MARK ++ q ++ eol ++ rest)))
+    (htail : findSub ENDSTREAM_MARK (tail ++ ENDSTREAM_MARK) = some tail.length)
+    (hq : ∀ c ∈ q, c ≠ 10 ∧ c ≠ 13) (heol : EolOk eol rest) :
+    streamRead false (pre ++ kw ++ eol0 ++ (d ++ (tail ++ ENDSTREAM_MARK ++ q ++ eol ++ rest))) pre.length
+        (some (d.length : Int))
+      = .ok (d, pre.length + kw.length + eol0.length + d.length + tail.length) := by
+  rw [streamRead_core false pre kw eol0 _ _ hkw heol0]
+  have ho := objlen_exact d.length
+    (pre ++ kw ++ eol0 ++ (d ++ (tail ++ ENDSTREAM_MARK ++ q ++ eol ++ rest))).length
+    (pre.length + (kw ++ eol0).length) (by simp; omega)
+  simp only [ho, List.take_left' rfl, List.drop_left' rfl, Bool.false_eq_true, if_false]
+  rw [scan_delim _ tail q eol rest (by simp; omega) htail hq heol]
+  simp [Nat.add_assoc]
+
+example : streamRead false ([60, 60, 62, 62] ++ [115, 116, 114, 101, 97, 109] ++ [13, 10] ++
+    ([101, 110, 100, 115, 116, 114, 101, 97, 109, 0, 10] ++ ([13, 10] ++ ENDSTREAM_MARK ++ [] ++ [10] ++ [101])))
+    4 (some 11) = .ok ([101, 110, 100, 115, 116, 114, 101, 97, 109, 0, 10], 25) := by decide
+
+/-- Fallback mode (the cross-reference table was rebuilt by scanning; `Length` is ignored, whatever
+it is): `rawdata` is exactly the bytes between the keyword line and the first `endstream`, for every
+marker-free `d`, and the parser resumes at the keyword. -/
+theorem stream_fallback_delim (pre kw eol0 d q eol rest : Bytes) (len : Option Int)
+    (hkw : ∀ c ∈ kw, c ≠ 10 ∧ c ≠ 13)
+    (heol0 : EolOk eol0 (d ++ ENDSTREAM_MARK ++ q ++ eol ++ rest))
+    (hd : findSub ENDSTREAM_MARK (d ++ ENDSTREAM_MARK) = some d.length)
+    (hq : ∀ c ∈ q, c ≠ 10 ∧ c ≠ 13) (heol : EolOk eol rest) :
+    streamRead true (pre ++ kw ++ eol0 ++ (d ++ ENDSTREAM_MARK ++ q ++ eol ++ rest)) pre.length len
+      = .ok (d, pre.length + kw.length + eol0.length + d.length) := by
+  rw [streamRead_core true pre kw eol0 _ _ hkw heol0]
+  simp only [objlen_fallback, List.take_zero, List.drop_zero, if_true, List.nil_append]
+  rw [scan_delim _ d q eol rest (by simp; omega) hd hq heol]
+  simp [Nat.add_assoc]
+
+example : streamRead true ([60, 60, 62, 62] ++ [115, 116, 114, 101, 97, 109] ++ [10] ++
+    ([1, 13, 10, 13, 101, 110, 100, 10] ++ ENDSTREAM_MARK ++ [32] ++ [13, 10] ++ [])) 4 (some (-7))
+    = .ok ([1, 13, 10, 13, 101, 110, 100, 10], 19) := by decide
+example : findSub ENDSTREAM_MARK ([1, 13, 10, 13, 101, 110, 100, 10] ++ ENDSTREAM_MARK) = some 8 := by decide
+
+theorem stream_read_payload (file : Bytes) (pos : Nat) (len : Option Int) :
+    (streamRead false file pos len).map Prod.fst = streamPayload file pos (len.getD 0).toNat := by
+  unfold streamRead streamPayload
+  cases nextline (file.drop pos) with
+  | none => rfl
+  | some line =>
+    simp only [Except.map, Bool.false_eq_true, if_false, objlen_le]
+    congr 1
+    rw [List.take_eq_take_iff]
+    simp
+
+example : (streamRead false [115, 10, 1, 2, 3] 0 (some (-4))).map Prod.fst = .ok [] := by decide
+example : (streamRead false [115, 10, 1, 2, 3] 0 (some 1000000)).map Prod.fst = .ok [1, 2, 3] := by decide
+example : (streamRead false [115, 10, 1, 2, 3] 0 none).map Prod.fst = .ok [] := by decide
 
 /-! ## The pinned code (before the two `fix:` commits) violates the property
 
